@@ -171,7 +171,8 @@ def optStr (j : Json) : Option String :=
 
 def handle (req : Json) : Except String Json := do
   let case ← req.getObjVal? "case"
-  let t ← parsePType (← getStr case "ptype")
+  let tname ← getStr case "ptype"
+  let t ← parsePType tname
   let args ← parseArgs t (← case.getObjVal? "args")
   let mro ← match getOpt case "mro" with
     | some m => (← m.getArr?).toList.mapM fun p => do
@@ -199,7 +200,7 @@ def handle (req : Json) : Except String Json := do
     judgeCtor args (ctxOf rxDefault) (match built with | .ok _ => "ok" | .error e => errName e)
       |>.map (s!"constructor: {·}")
   let mut checked : Nat := 0
-  branches := s!"{repr t}:ctor:{match built with | .ok _ => "ok" | .error e => errName e}" :: branches
+  branches := s!"{tname}:ctor:{match built with | .ok _ => "ok" | .error e => errName e}" :: branches
   let ctorBlocked := specImpl.isSome
   match built with
   | .error _ => pure ()
@@ -233,7 +234,7 @@ def handle (req : Json) : Except String Json := do
       let kind := match r with
         | .ok _ => if v.isNone then "ok-none" else if v.isCallable then "ok-callable" else "ok"
         | .error e => errName e
-      let b := s!"{repr t}:{kind}"
+      let b := s!"{tname}:{kind}"
       if !branches.contains b then branches := b :: branches
       -- oracle, against the *declared* constraints
       match specC with
